@@ -165,7 +165,8 @@ struct SampleRun {
 
     void op_hashs(const Op& op) {
         std::vector<uint8_t> h = unhex(op.s.empty() ? "" : op.s[0]); h.resize(32);
-        Frv out; env.lib_calls += 2; R.jv_zp_from_hash(view, out.b, h.data());
+        MBytes hm(h.data(), h.size(), (size_t) (1 + (env.lib_calls + (uint64_t) env.step) % 15));   // digests are byte strings: they arrive at any address
+        Frv out; env.lib_calls += 2; R.jv_zp_from_hash(view, out.b, hm.p);
         Bn in = Bn::from_be(h.data(), 32); Bn want = Bn::mod(Bn::mod(in, Bn(1).shl(255)), K().r);
         env.check(Bn::from_le(out.b, 32) == want, "C10", "hash-to-scalar:value", "zp_from_hash(" + hex(h.data(), 32) + ") != (input with top bit cleared) mod r");
         Frv x; for (int i = 0; i < 32; i++) x.b[i] = h[31 - (size_t) i];
@@ -184,9 +185,10 @@ struct SampleRun {
         // every third call hashes in place: the caller keeps the digest in the very object that receives the point (offset 0, the x field)
         bool inplace = (h[1] % 3) == 0 && out2.n >= h.size();
         if (inplace) { memcpy(out2.p, h.data(), h.size()); env.count("probe:in_place_call_output_is_the_input_object"); }
+        MBytes hm(h.data(), h.size(), (size_t) (1 + (env.lib_calls + (uint64_t) env.step) % 15));   // the digest at an arbitrary (odd, unaligned) address
         const uint8_t* h2 = inplace ? out2.p : h.data();
-        if (g == 1) { R.jv_g1affine_from_hash(view, out, h.data()); R.jv_g1affine_from_hash(view, out2, h2); }
-        else { R.jv_g2affine_from_hash(view, out, h.data()); R.jv_g2affine_from_hash(view, out2, h2); }
+        if (g == 1) { R.jv_g1affine_from_hash(view, out, hm.p); R.jv_g1affine_from_hash(view, out2, h2); }
+        else { R.jv_g2affine_from_hash(view, out, hm.p); R.jv_g2affine_from_hash(view, out2, h2); }
         auto canon = [&](const void* a) { uint8_t c[193]; if (g == 1) { R.jv_g1a_canon(c, a); return std::string((char*) c, 97); } R.jv_g2a_canon(c, a); return std::string((char*) c, 193); };
         env.check(canon(out) == canon(out2), "C10", "hash-to-curve:deterministic", inplace ? "hashing the same bytes gave a different point when the digest was kept inside the result object" : "hashing the same bytes twice gave different points");
         // model
@@ -217,7 +219,7 @@ struct SampleRun {
         env.check(canon(out) == canon(aff), "C10", "hash-to-curve:first-point", strf("hash-to-curve result is not the first curve point at or after the hashed x (model skipped %llu candidates)", (unsigned long long) skipped));
         if (skipped) env.count("probe:hash_to_curve_incremented", skipped);
         if (idmode) {
-            env.lib_calls += 2; R.jv_lq_compute_id_from_hash(view, id, h.data()); R.jv_lq_compute_id_from_hash(view, id2, h.data());
+            env.lib_calls += 2; R.jv_lq_compute_id_from_hash(view, id, hm.p); R.jv_lq_compute_id_from_hash(view, id2, h.data());
             int ek; void* q = R.jv_field(JV_OK_LQ_ID, id, 0, 0, &ek); void* q2 = R.jv_field(JV_OK_LQ_ID, id2, 0, 0, &ek);
             G1v cc; R.jv_g1_clear_cofactor_ref(cc.b, aff); Buf ca(out.n); R.jv_g1affine_from_projective(1, ca, cc.b);
             env.check(canon(q) == canon(q2), "C10", "identity-derivation:deterministic", "compute_id_from_hash is not deterministic");
